@@ -97,6 +97,18 @@ def cases_for(chk: Check, thorough: bool):
     return r1.cases + r2.cases
 
 
+def sweep_cases(chk: Check, thorough: bool):
+    """one-track sheets whose first index sweeps every frame value 0..74 (x seconds 0..2, plus minute carries): every
+    MM:SS:FF must land on exactly (60 MM + SS) * 75 + FF sectors"""
+    times = [[0, s, f] for s in (0, 1, 2) for f in range(75)]
+    if thorough:
+        times += [[0, 59, f] for f in range(0, 75, 7)] + [[1, 0, f] for f in range(0, 75, 11)]
+    res = chk.run_model(tlc.prepare("Cue", dict(MaxTracks=1, Times=times, BinLens={2352, 2355}, WithData=False, Others=set(), EmitCases=True),
+                                    invariants=["WindowsTile", "Emit"]), label=f"design: one-track sheets over {len(times)} index times", timeout_s=3000)
+    plain = [c for c in res.cases if c["ins"]["pos"] == 0 and not any(l["c"] == "TITLE" for l in c["lines"])]
+    return plain
+
+
 def run(chk: Check):
     thorough = chk.tier == "thorough"
     chk.rule = ("TLC enumerates every sheet of 1..n AUDIO tracks with first-index times from a set crossing the MSF carries "
@@ -117,7 +129,9 @@ def run(chk: Check):
         todo = keep
     if not thorough:
         todo = todo[::max(1, len(todo) // 350)]
-    for i, c in enumerate(todo):
+    sw = sweep_cases(chk, thorough)
+    sw = sw if thorough else [c for c in sw if c["binlen"] % 2352 == 0 and len(c["lines"]) == 3]      # FILE, TRACK, INDEX 01
+    for i, c in enumerate(todo + sw):
         run_case(chk, c, chk.seed + i, i % len(cue.STYLES))
     chk.sample({"text": cue.render(todo[len(todo) // 2]["lines"], 1, 1), "binlen": todo[len(todo) // 2]["binlen"],
                 "windows": todo[len(todo) // 2]["windows"]})
